@@ -90,7 +90,7 @@ impl Config {
         //        block mode and one of its items exactly hits the target_width in
         //        inline mode, then the comma after the item will surpass the width
         //        without triggering backtracking on the item.
-        self.target_width = width - 1; self
+        self.target_width = width.saturating_sub(1); self
     }
 }
 
